@@ -465,8 +465,20 @@ func (e *SpecEnv) index(v, i Term, old bool) Term {
 		}
 		return Term{S: sapp("select", v.S, i.S), Sort: strings.TrimSuffix(strings.TrimPrefix(v.Sort, "(Array Int "), ")"), GT: et}
 	}
+	if mt, ok := mapTypeOf(v.GT); ok {
+		_, val := e.tx.mapComps(mt)
+		return Term{S: sapp("select", sapp("select", e.tx.h.heapTerm(e.state(old), val), v.S), i.S), Sort: e.d().sortOf(mt.Elem()), GT: mt.Elem()}
+	}
 	e.fail("cannot index %s", v.Sort)
 	return Term{}
+}
+
+func mapTypeOf(t types.Type) (*types.Map, bool) {
+	if t == nil {
+		return nil, false
+	}
+	m, ok := t.Underlying().(*types.Map)
+	return m, ok
 }
 
 func (e *SpecEnv) byteHeap(old bool) string {
@@ -633,6 +645,63 @@ func (e *SpecEnv) call(n *SCall, old bool) Term {
 		}
 	case "heapVersion":
 		return Term{S: e.state(old).hv, Sort: "Int"}
+	case "visited":
+		// visited(k): key k has already been produced by the (unique) map iteration in scope
+		need(1)
+		k := args()[0]
+		var found *Term
+		for name, g := range e.state(old).ghost {
+			if strings.HasPrefix(name, "visited!") {
+				if found != nil {
+					e.fail("visited(): more than one map iteration in scope")
+				}
+				gg := g
+				found = &gg
+			}
+		}
+		if found == nil {
+			e.fail("visited(): no map iteration in scope")
+		}
+		return Term{S: sapp("select", found.S, k.S), Sort: "Bool"}
+	case "has":
+		// has(m, k): key k is present in map m
+		need(2)
+		a := args()
+		mt, ok := mapTypeOf(a[0].GT)
+		if !ok {
+			e.fail("has(): first argument is not a map")
+		}
+		dom, _ := e.tx.mapComps(mt)
+		return Term{S: sand("(not (= "+a[0].S+" 0))", sapp("select", sapp("select", e.tx.h.heapTerm(e.state(old), dom), a[0].S), a[1].S)), Sort: "Bool"}
+	case "callsOn", "lastretOn", "lastargOn":
+		// per-object call trace of a function-valued struct field: callsOn(obj, "field"), lastretOn(obj, "field", k)
+		if len(n.Args) < 2 {
+			e.fail("%s needs (object, \"field\"[, index])", n.Fn)
+		}
+		obj := e.tr(n.Args[0], old)
+		fname, ok := n.Args[1].(*SStr)
+		if !ok {
+			e.fail("%s: field name must be a string literal", n.Fn)
+		}
+		if n.Fn == "callsOn" {
+			g := e.tx.h.ghostTerm(e.state(old), "callsAt!"+fname.V, "(Array Int Int)")
+			return Term{S: sapp("select", g.S, obj.S), Sort: "Int"}
+		}
+		need(3)
+		k, ok := n.Args[2].(*SInt)
+		if !ok {
+			e.fail("%s index must be a literal", n.Fn)
+		}
+		srt, gt := e.tx.fnValSlotSort(fname.V, n.Fn == "lastargOn", k.V)
+		if srt == "" {
+			e.fail("%s: unknown function-valued field %s", n.Fn, fname.V)
+		}
+		kind := "lastretAt!"
+		if n.Fn == "lastargOn" {
+			kind = "lastargAt!"
+		}
+		g := e.tx.h.ghostTerm(e.state(old), kind+fname.V+"!"+k.V, "(Array Int "+srt+")")
+		return Term{S: sapp("select", g.S, obj.S), Sort: srt, GT: gt}
 	}
 	if d, ok := e.tx.cs.Defines[n.Fn]; ok {
 		if len(d.Params) != len(n.Args) {
